@@ -54,17 +54,18 @@ var ConfigTypes = []string{files.TypeFile, files.TypeConfig, files.TypeConfigNoR
 // concrete value): whole-package runs multiply paths for every rendered
 // number, so each harness varies one family of inputs at a time.
 type Options struct {
-	SymModes   bool // on-disk mode, explicit mode, umask, dir mode: arbitrary
-	SymOwners  bool // owner / group strings
-	SymTimes   bool // package mtime, source mtime, explicit entry mtime
-	SymPkgTime bool // only the package mtime
-	NoInfoFork bool // entry 1 always has file_info (no symbolic choice)
-	SymContent bool // file bytes (and length)
-	SymDst     bool // destination spelling
-	SymType    bool // file / config / config|noreplace / config|missingok
-	NoPkgTime  bool // the package mtime is not configured (zero): entries take their source's mtime
-	SubSecond  bool // the on-disk mtime of source files has a fractional part (0, .5 s, .999999999 s)
-	Second     int  // 0 none, 1 declared dir, 2 symlink, 3 second file, 4 rpm ghost, 5..8 rpm doc/licence/license/readme,
+	SymModes    bool // on-disk mode, explicit mode, umask, dir mode: arbitrary
+	SymOwners   bool // owner / group strings
+	SymTimes    bool // package mtime, source mtime, explicit entry mtime
+	SymPkgTime  bool // only the package mtime
+	NoInfoFork  bool // entry 1 always has file_info (no symbolic choice)
+	SymContent  bool // file bytes (and length)
+	SymDst      bool // destination spelling
+	SymType     bool // file / config / config|noreplace / config|missingok
+	UmaskChoice bool // the umask is 022 or 077 (a restrictive umask must not reach what has a fixed mode)
+	NoPkgTime   bool // the package mtime is not configured (zero): entries take their source's mtime
+	SubSecond   bool // the on-disk mtime of source files has a fractional part (0, .5 s, .999999999 s)
+	Second      int  // 0 none, 1 declared dir, 2 symlink, 3 second file, 4 rpm ghost, 5..8 rpm doc/licence/license/readme,
 	// 9 tree, 10 directory source (glob), 11 on-disk symlink source; -1 symbolic choice of 1..3, -2 of 1..4, -3 of 4..8, -4 of 9..11
 }
 
@@ -101,6 +102,9 @@ func Payload(o Options) *Scenario {
 	}
 	sc.Umask = fs.FileMode(u32(o.SymModes, "umask", 0o022))
 	info := &nfpm.Info{Name: "pkg", Arch: "amd64", Platform: "linux", Version: "1.2.3", Description: "d", Maintainer: "m <m@x>", MTime: sc.MTime}
+	if o.UmaskChoice {
+		sc.Umask = []fs.FileMode{0o022, 0o077}[zz.NondetChoice("umask.choice", 2)]
+	}
 	info.Umask = sc.Umask
 	info.RPM.BuildHost = "host"
 
